@@ -56,6 +56,7 @@ var c08Extra = []string{
 	"... | select(. == \"a\")", ".[]", ".[0]", ".[-1]", ".[1:]", ".[:1]", ".a", ".b", ".a.b", ".a[0]", ".a[]", ".x.y.z", ".[5]", ".a[7]", ".b[\"q\"]", ".[\"a\", \"zz\"]",
 	"shuffle | length", "array_to_map", "document_index", "filename", "splitDoc", "to_unix", "collect", "anchor", "alias", "style", "head_comment",
 	"[.. | path]", "[.. | parent]", ".[] as $i | $i", ". as $d | $d.a", "with_entries(select(.key != \"a\"))", "to_entries | from_entries", ".a // .b", ".zz // \"d\"",
+	"., .a", "(., .a) | length", "(., .b) | kind", ".a | (., .b)", "(., 1) | tag", "., .[0]", "(., .x) | select(. == 1)",
 	".a == 1", ".qq == null", ".a[3] == 1", ".[9] != 2", ".a < 2", ".a + 1", ".a + .b", ".a * .b", ".a - [1]", ".b / \",\"", ".a % 2", ".a and .b", ".qq or .a", "not",
 }
 
